@@ -285,6 +285,7 @@ def m3_check(log):
 # M6 reach monitor (function entry counts in traph/*)
 # --------------------------------------------------------------------------
 REACH = Counter()
+LINES = set()  # (file relative to the repository, line) of traph/* executed at least once
 _TOOL = 3
 
 
@@ -308,9 +309,52 @@ def install_m6():
         if REACH[code.co_qualname] >= 200:
             return mon.DISABLE  # "reached at least 200 times" is all M6 needs
 
+    cut = len(os.path.dirname(root)) + 1
+
+    def on_line(code, line):
+        fn = code.co_filename
+        if fn.startswith(root):
+            LINES.add((fn[cut:], line))
+        return mon.DISABLE  # the first execution of a line is all that is recorded
+
     mon.register_callback(_TOOL, mon.events.PY_START, on_start)
-    mon.set_events(_TOOL, mon.events.PY_START)
+    mon.register_callback(_TOOL, mon.events.LINE, on_line)
+    mon.set_events(_TOOL, mon.events.PY_START | mon.events.LINE)
     STATUS["M6"] = "on"
+
+
+def lines_reached():
+    out = {}
+    for f, l in LINES:
+        out.setdefault(f, []).append(l)
+    return {f: sorted(v) for f, v in out.items()}
+
+
+def executable_lines(repo):
+    """file -> set of lines that carry code, from the compiled code objects of
+    traph/*.py (docstring-only and 'def' header lines included as the compiler sees them)."""
+    out = {}
+    root = os.path.join(repo, "traph")
+    for d, _, fs in os.walk(root):
+        for f in fs:
+            if not f.endswith(".py"):
+                continue
+            p = os.path.join(d, f)
+            try:
+                code = compile(open(p, "rb").read(), p, "exec")
+            except SyntaxError:
+                continue
+            lines = set()
+            todo = [code]
+            while todo:
+                c = todo.pop()
+                if c.co_flags & 0x1:  # function bodies only: module and class bodies run at import, before M6 is on
+                    for _, _, ln in c.co_lines():
+                        if ln and ln != c.co_firstlineno:
+                            lines.add(ln)
+                todo += [k for k in c.co_consts if hasattr(k, "co_lines")]
+            out[os.path.relpath(p, repo)] = lines
+    return out
 
 
 def reach_for(names):
